@@ -243,7 +243,10 @@ cdef class cyVariables:
                 if not self.count(old):
                     continue  # not a variable, nothing to relabel
 
-                idx = self._label_to_index.pop(old, old)
+                idx = self._label_to_index.pop(old, None)
+                if idx is None:
+                    # old is its own index, possibly given as e.g. a NumPy integer
+                    idx = int(old)
 
                 if new != idx:
                     self._label_to_index[new] = idx
